@@ -44,6 +44,12 @@ CLAIMS = {
         note="The model is extracted from /repo on every run, not hand-written. Guards are asserts (python -O removes them; outside the quantifier). Server scripts are well-formed (the quantifier's). traces_validated_against_impl is 0 by construction: nothing is executed.",
         ref="DESIGN.md section 3, C11",
     ),
+    "C12": dict(
+        technique="static analysis: inter-procedural exception-escape analysis (may-raise sets minus enclosing handlers, real class hierarchy) driven by client-data provenance and a frozen, hand-confirmed stdlib fact table; fixpoint over recursive summaries",
+        text="From 61 client-facing entry points (request accessors on both interfaces, JSON/form parsing, multipart decoder and helpers, range parsing, routing, static-file apps, URL construction) the check computes which (exception class, raising construct) can propagate out: explicit raises whose guard depends on client data, and fact-table operations (decode/encode/int/float/Decimal/date/urlsplit/os.stat/json.loads/parsedate/split-unpacking/constant-table lookup) whose operand is client-derived; calls, constructors, properties, cached properties, local objects and abstract-method overrides are followed. Only 4xx HTTP exceptions (status folded from the constructors), ClientDisconnect and the documented RuntimeErrors may escape. A report is a real escape (11 constructs are listed known findings F14-F18, three were repaired); misses are possible for stdlib behaviours outside the table.",
+        note="Trusted: the fact table (each line reproduced once by hand), server-provided gateway keys, builtin exception hierarchy. Path-insensitive inside a function: three confirmed-infeasible reports are suppressed by name with a reason. Asserts are not counted.",
+        ref="DESIGN.md section 3, C12",
+    ),
 }
 
 NOT_APPLICABLE = {
